@@ -5,7 +5,12 @@ cd "$(dirname "$0")/harness"
 export GOFLAGS=-mod=mod GOPROXY=off GOSUMDB=off GOTOOLCHAIN=local
 # make sure the harness go.sum carries /repo's dependency hashes
 sort -u /repo/go.sum go.sum -o go.sum
-go build ./... 
+go build ./...
 go build -tags verif ./...
-go vet -tags verif ./ref >/dev/null 2>&1 || true
 go test -count=1 -vet=off ./ref
+# warm the caches of the slower build modes (purego, race, cover); failures here are not fatal,
+# every check builds what it needs itself
+go test -vet=off -tags verif,purego -run '^$' ./c05 ./c19 >/dev/null 2>&1 || true
+go test -vet=off -tags verif -race -run '^$' ./c20 >/dev/null 2>&1 || true
+go build -tags verif,opcover -cover -covermode=atomic -o /dev/null ./cmd/opserver >/dev/null 2>&1 || true
+exit 0
